@@ -473,4 +473,7 @@ func runC19(r *run) {
 			}
 		}
 	}
+	// the buffer API in a process started with DEBUG=1 (the debug switches are read once, at start-up)
+	envProbe(r, false, "buf", "DEBUG=1")
+	envProbe(r, true, "buf", "DEBUG=true")
 }
